@@ -26,12 +26,18 @@ func init() {
 }
 
 type c09Source struct {
-	data  []byte
-	pos   int
-	chunk int
+	data   []byte
+	pos    int
+	chunk  int
+	hiccup bool // one transient EOF after the first chunk
+	reads  int
 }
 
 func (s *c09Source) Read(p []byte) (int, error) {
+	s.reads++
+	if s.hiccup && s.reads == 2 {
+		return 0, io.EOF
+	}
 	if s.pos >= len(s.data) {
 		return 0, io.EOF
 	}
@@ -137,9 +143,19 @@ func VerifC09_FanOut() {
 	slow := &c09Consumer{slow: true, done: make(chan struct{})}
 	go fast.run(chA)
 	go slow.run(chB)
-	core := New(&jsonconfig.Config{}, []chan rtcm.Message{chA, nil, chB})
+	// tolerance on end of file: none (stop at the first EOF) or 200 ms with a
+	// transient EOF after the first chunk (the source then stays silent at
+	// the end until the handler gives up); realistic clock, 50 ms jitter
+	verifClockModel(50 * 1000000)
+	cfg := &jsonconfig.Config{}
+	hiccup := false
+	if verifParam("tolerance", 0, 1) == 1 {
+		cfg.TimeoutOnEOFMilliSeconds = 200
+		hiccup = true
+	}
+	core := New(cfg, []chan rtcm.Message{chA, nil, chB})
 	verifWitness("reached")
-	ret := core.HandleMessagesUntilEOF(verifTimeOf(1676376000*1000000000), bufio.NewReader(&c09Source{data: in, chunk: chunk}))
+	ret := core.HandleMessagesUntilEOF(verifTimeOf(1676376000*1000000000), bufio.NewReader(&c09Source{data: in, chunk: chunk, hiccup: hiccup}))
 	verifWitness("returned")
 	verifAssert("returns-continue-on-end-of-input", ret == 0)
 	// the caller owns the consumer channels: close them and let everything
